@@ -335,6 +335,28 @@ impl World {
                 }
                 self.note_send(i, j, data, sent, false);
             }
+            // a stray datagram: from raw socket i to the *port* of socket j at another local address
+            // (127.0.0.2), where nothing is bound.  A receive_broadcasts listener (bound to the wildcard address)
+            // does get it from the kernel and must skip it; nobody may ever report it.
+            "y" if !self.v6 => {
+                let (i, j, n, seed) = match parse3(rest) {
+                    Some((i, Some(j), n, seed)) => (i, j, n, seed),
+                    _ => return false,
+                };
+                if i >= self.socks.len() || j >= self.socks.len() || n > 1000 {
+                    return false
+                }
+                let dst: SocketAddr = format!("127.0.0.2:{}", self.socks[j].addr().port()).parse().unwrap();
+                let data = payload(n, seed);
+                match &self.socks[i] {
+                    Sock::R { sock: Some(sock), .. } => {
+                        let _ = sock.send_to(&data, dst);
+                    }
+                    _ => return false,
+                }
+                self.statuses.push("S");
+                self.tags.insert("stray");
+            }
             "w" if rest.is_empty() => self.pump(),
             "k" | "o" => {
                 let j: usize = match rest.parse() {
@@ -736,6 +758,8 @@ fn main() {
                 // the receive_broadcasts listener (its own receive path): every size class, replies, IPv6
                 for c in [
                     "udp e2e B Q R x1>0:5:1 x2>0:6:2 w r0>1:7:3 r0>2:8:4 f0>1:9:5 w",
+                    "udp e2e B R R x1>0:10:1 x2>0:300:2 y1>0:20:3 x2>0:0:4 x1>0:2000:5 x2>0:7:6 w y2>0:5:7 w x1>0:9:8 w",
+                    "udp e2e L R R x1>0:10:1 y1>0:20:3 x2>0:0:4 x1>0:2000:5 w",
                     "udp e2e B R C0 x1>0:5:1 s2:7:2 x1>0:0:3 w f0>1:3:3 f0>2:0:4 r0>1:65507:5 w x1>0:65507:6 w s2:65507:7 w s2:65508:8 w",
                     "udp e2e B R R x1>0:3:1 x2>0:3:2 x1>0:1473:3 x2>0:9000:4 w r0>1:5:7 r0>2:5:8 w",
                     "udp e2e v6 B R C0 x1>0:5:1 s2:65507:2 w x1>0:65520:3 w f0>1:65507:4 w",
